@@ -119,7 +119,7 @@ class Transform:
     @caching.cache_decorator
     def unit_volume(self):
         """Volume of a transformed unit cube."""
-        return np.linalg.det(self._data["transform_matrix"][:3, :3])
+        return abs(np.linalg.det(self._data["transform_matrix"][:3, :3]))
 
     def apply_transform(self, matrix):
         """Mutate the transform in-place and return self."""
